@@ -172,6 +172,16 @@ Theorem c14_fitted_rows :
 Proof. intros C config_of s. exact (fitted_rows_spec config_of s). Qed.
 Print Assumptions c14_fitted_rows.
 
+(* Late reports: in ANY state, a report of a trial that is not running (already stopped, paused, failed or completed)
+   stores nothing and registers no pending evaluation; the scheduler repeats its earlier decision, and the
+   on_trial_remove the tuner issues for it leaves the searcher state unchanged. (Histories with late reports are
+   not part of [legal_hist]: the tuner does not poll such trials; the driver issues them and compares.) *)
+Theorem c14_late_report_ignored :
+  forall cfg st t r v cont rec, find t (trials st) = Some rec -> dec rec <> CONTINUE ->
+    on_trial_result cfg st t r v cont = Ok (st, dec rec) /\ srch (on_trial_remove st t) = srch st.
+Proof. exact late_report_ignored. Qed.
+Print Assumptions c14_late_report_ignored.
+
 (* non-vacuity of the fitted-data theorems: keep the first [cap] observations; two trials with the same configuration *)
 Example c14_fitted_example :
   choose_ok (fun l n => firstn n l) /\
